@@ -116,11 +116,44 @@ func catalogue(thorough bool) []inst {
 				return d, []held{hold("buf", buf)}
 			}})
 	}
+	// decoded twin of a listed DHCPv6 message
+	addV6Decoded := func(in inst) {
+		v, _ := in.build()
+		m, ok := v.(dhcpv6.DHCPv6)
+		if !ok {
+			return
+		}
+		var wire []byte
+		if pv, _ := fw.Safe(func() { wire = m.ToBytes() }); pv != nil {
+			return
+		}
+		if _, err := dhcpv6.FromBytes(append([]byte(nil), wire...)); err != nil {
+			return
+		}
+		add(inst{kind: "v6-message-decoded", name: in.name + "/decoded",
+			src: hexSrc(wire) + "\nv, err := dhcpv6.FromBytes(buf)\nif err != nil {\n\tpanic(err)\n}",
+			build: func() (any, []held) {
+				buf := append([]byte(nil), wire...)
+				d, err := dhcpv6.FromBytes(buf)
+				if err != nil {
+					panic(err)
+				}
+				return d, []held{hold("buf", buf)}
+			}})
+	}
 	for _, in := range listed() {
 		add(in)
 		if in.kind == "v4-packet" && (thorough || !strings.HasPrefix(in.name, "modifier/")) {
 			addV4Decoded(in)
 		}
+		if in.kind == "v6-message" && (thorough || !strings.HasPrefix(in.name, "modifier/")) {
+			addV6Decoded(in)
+		}
+	}
+	// values decoded from hand-assembled, accepted, non-canonical bytes (both tiers, all of them)
+	nc, _ := noncanonical()
+	for _, in := range nc {
+		add(in)
 	}
 	for k := 0; k < 3; k++ {
 		k := k
@@ -273,7 +306,7 @@ func Run(c *fw.Ctx) {
 				var st stats
 				t0 := time.Now()
 				bi := b
-				if b.core > 5 && strings.HasPrefix(ins[i].kind, "v6-message") && ordinal[i]%8 != 0 {
+				if b.core > 5 && (ins[i].kind == "v6-message" || ins[i].kind == "v6-message-decoded") && ordinal[i]%8 != 0 {
 					bi.core = 5 // thorough: the longest core sequences on every 8th message only (all messages share the Message/RelayMessage printing and encoding code)
 				}
 				pv, stack := fw.Safe(func() { st = e.explore(bi) })
@@ -378,6 +411,10 @@ func Run(c *fw.Ctx) {
 		ml = append(ml, m)
 	}
 	sort.Strings(ml)
+	nc, rejected := noncanonical()
+	differ, total := reencodes(nc)
+	c.Extra("hand_assembled_noncanonical_inputs", map[string]any{"accepted_and_explored": len(nc), "rejected_by_the_library_(not_values)": rejected,
+		"accepted_whose_re-encoding_differs_from_the_input": differ, "accepted_with_encoding": total})
 	c.Extra("initial_values", values)
 	c.Extra("initial_values_with_more_than_one_reachable_state", multi)
 	c.Extra("max_depth", b.core)
@@ -386,7 +423,7 @@ func Run(c *fw.Ctx) {
 	c.Extra("distinct_type_methods_total", len(ml))
 	c.Extra("type_methods", ml)
 	c.Extra("bounds", map[string]any{"full_action_set_max_length": b.full, "core_max_length": b.core,
-		"core_max_length_note": "thorough: 6 for every value except DHCPv6 messages, where every 8th message (built and decoded) gets 6 and the others 5; quick: 4 for every value",
+		"core_max_length_note": "thorough: 6 for every value except the corpus DHCPv6 messages (kinds v6-message, v6-message-decoded), where every 8th gets 6 and the others 5; quick: 4 for every value",
 		"per_value_execution_budget_above_which_the_reduced_snapshot_is_compared(length-2 full set)": b.budget,
 		"per_value_execution_budget_above_which_the_reduced_snapshot_is_compared(core search)":       b.budgetCore,
 		"reduced_snapshot": "core actions + the value's ToBytes + caller-held slices + the results of the sequence's own calls (length-1 sequences always get the full snapshot on the same value; if anything differs every observation is repeated on its own fresh replay for exact attribution)"})
